@@ -741,9 +741,14 @@ class ADEV(Pytree):
                     eqn.outvars,
                     Dual.dual_tree(primal_outs, tangent_outs),
                 )
-            (out_dual,) = jax_util.safe_map(dual_env.read, jaxpr.outvars)
-            if not isinstance(out_dual, Dual):
-                out_dual = Dual(out_dual, _zero_tangent_like(out_dual))
+            # One Dual for a single output (the usual case: an expectation body
+            # returns one value); a list for a `lax.cond` branch with several
+            # outputs, or none (JAX forwards operands a branch returns unchanged).
+            out_duals = [
+                d if isinstance(d, Dual) else Dual(d, _zero_tangent_like(d))
+                for d in jax_util.safe_map(dual_env.read, jaxpr.outvars)
+            ]
+            out_dual = out_duals[0] if len(out_duals) == 1 else out_duals
             if final_dual_kont is not None:
                 return final_dual_kont(out_dual)
             return out_dual
